@@ -24,14 +24,11 @@ Depth == IF "VERIF_DEPTH" \in DOMAIN IOEnv THEN atoi(IOEnv.VERIF_DEPTH) ELSE 12
 
 GInit == Init /\ hist = <<>>
 
-\* a relayed stream that finds no next hop starts a route search of its own in the implementation;
-\* that composition is not modelled: such deliveries are not generated
-RelayDeliverable == last'.op = "deliver" /\ last'.m.k = "relay"
-                      => (nsent' > nsent \/ last'.m.to = last'.m.dest)
+\* (a relayed stream that finds no next hop starts a route search of its own in the implementation; the
+\* model just drops it; the driver gives the search up and the judge counts it as one more FindRoute)
 
 GNext == /\ Len(hist) < Depth
          /\ Next
-         /\ RelayDeliverable
          /\ hist' = Append(hist, last')
 GSpec == GInit /\ [][GNext]_<<vars, hist>>
 
